@@ -37,6 +37,8 @@ TIE_A += [f"code:fuzzylite.importer.FllImporter.{m}" for m in (
     "input_variable", "output_variable", "rule_block", "_process", "engine")]
 # `Op.str` and the dispatch of `FllExporter.to_string` (theorems `code_opStr`, `code_fllToString`)
 TIE_A += ["code:fuzzylite.operation.Operation.str", "code:fuzzylite.exporter.FllExporter.to_string"]
+# fifth wave: `Engine.configure` (theorem `code_engineConfigure` + laws) and the class dispatch `FllImporter.component`
+TIE_A += ["code:fuzzylite.engine.Engine.configure", "code:fuzzylite.importer.FllImporter.component"]
 # the importer's factory look-ups (theorems `code_importTnorm` / `code_importSnorm`; the callee is tied in C17)
 TIE_A += ["code:fuzzylite.importer.FllImporter.tnorm", "code:fuzzylite.importer.FllImporter.snorm",
           "code:fuzzylite.factory.ConstructionFactory.construct"]
